@@ -21,10 +21,11 @@ RULE = ("Hypothesis draws a call chain of depth 1-6 mixing functions, methods, i
         "their lines (the printer records the line of every statement). Oracle: stdout (including the printed "
         "backTrace), status (1 for an uncaught error, n for exit(n), 0 otherwise), and for uncaught errors stderr = "
         "'Traceback (most recent call last):', one '  <path>:<line> in <fn>()|script' line per active Laythe frame "
-        "innermost first (lines of native stubs are ignored), then '<Class>: <message>'. Non-trivial: chain depth >= 2 "
+        "innermost first (natives that run with a stub frame of their own -- each, reduce, print, [] ... -- appear as 'native:0 in <name>()'), then '<Class>: <message>'. Non-trivial: chain depth >= 2 "
         "with the raise on a different line from every call; distinct by program text.")
 ASSUMPTIONS = ["every statement is printed on one line, so the line of a call is the line of its statement",
-               "native stub frames ('native:0 in each()') are not source calls and are ignored on both sides",
+               "which natives run with a stub frame is taken from NativeMetaBuilder::with_stack at the pinned commit "
+               "(pbt/lang/natives.py STACK_NATIVES)",
                "messages of vm raised runtime faults are not compared (only their class)"]
 GATES = {"nontrivial": 0.50, "uncaught": 0.20, "caught": 0.20}
 LEVEL_TEXT = "Model-based search over generated call-chain shapes and line layouts; bounded by the generated shapes."
@@ -46,6 +47,7 @@ def expected_traceback(res, path="/v/main.lay"):
     out = []
     for (name, line, native) in res.err_chain:
         if native:
+            out.append(("native", 0, name + "()"))
             continue
         out.append((path, line, "script" if name == "script" else name + "()"))
     return out
@@ -83,7 +85,7 @@ def run_case(case, ctx):
             else:
                 for l in err[1:]:
                     m = TB_LINE.match(l)
-                    if m and not m.group(1).startswith("native"):
+                    if m:
                         got.append((m.group(1), int(m.group(2)), m.group(3)))
                 want = expected_traceback(res)
                 if got != want:
